@@ -61,6 +61,9 @@ partial def pItem : P Item := do
     pure (.text (if hide == 0 then expected else ""))
   -- `{{ fuse() }}` prints nothing (the recovery stream arms it only for extra renders)
   | "fuse" => pure (.text "")
+  -- `{{ try_block("b<n>", k) }}`: a helper renders block n on the running State, swallows its
+  -- failure and prints nothing; the render of a block leaves no variables behind
+  | "tryb" => do let _n ← num; let _k ← num; pure (.text "")
   | "b" => pure (.callBlock (← num))
   | "s" => pure .super
   | "x" => do
